@@ -1124,8 +1124,13 @@ where
             Some(b'u') => {
                 if self.read.remain() < 6 {
                     return perr!(self, EofWhileParsing);
-                } else {
-                    self.read.eat(5);
+                }
+                // `u` must be followed by exactly four hex digits
+                self.read.eat(1);
+                for _ in 0..4 {
+                    if !self.read.next().is_some_and(|c| c.is_ascii_hexdigit()) {
+                        return perr!(self, InvalidUnicodeCodePoint);
+                    }
                 }
             }
             Some(c) => {
